@@ -64,6 +64,14 @@ def reached():
         raise Violation('reached')
 
 
+def concrete(x):
+    """Realise a symbolic value (forks the path per value); identity outside CrossHair."""
+    if _tracing():
+        from crosshair.core import deep_realize
+        return deep_realize(x)
+    return x
+
+
 def mkbytes(ints):
     """bytes from a sequence of (possibly symbolic) ints without realising them."""
     if _tracing():
